@@ -239,7 +239,8 @@ func c02() {
 	}
 	for _, s := range []string{"bool", "i8", "u8", "i16", "u16", "i32", "u32", "i64", "u64", "int", "uint", "f32", "f64", "str", "bytes", "any", "Number", "Time", "(ptr int)", "(slice int)", "(arr 2 int)", "(arr 0 int)", "(map str int)", "(map int str)",
 		"(struct (f A - int) (f B ,string int) (f C ,string str) (f D ,string bool) (f E ,string f64) (f F ,string (ptr int)))",
-		"(struct (f Abc - int) (f ABC - int) (f Abc_ x int))", "(map str (slice str))", "(map str any)", "(slice any)", "(ptr (ptr str))", "(struct (f A - any) (f B - (ptr any)))"} {
+		"(struct (f Abc - int) (f ABC - int) (f Abc_ x int))", "(map str (slice str))", "(map str any)", "(slice any)", "(ptr (ptr str))", "(struct (f A - any) (f B - (ptr any)))",
+		"(arr 3 int)", "(struct (f A - (arr 3 int)) (f B - (slice int)) (f C - (map str int)))", "(arr 2 (slice int))", "(slice (arr 2 str))", "(ptr (arr 3 i8))"} {
 		types = append(types, parseSx(s))
 	}
 	for i := 0; i < nT; i++ {
@@ -258,6 +259,16 @@ func c02() {
 		}
 		for k := 0; k < 4; k++ {
 			jUnmarshal(t, rndn(6), [][]byte{[]byte(pick(jScalarsDocs))})
+		}
+		// reset histories: a populated target followed by an emptier document of each shape (what must be cleared,
+		// zeroed or kept is decided by encoding/json), then repopulated
+		if len(valid) > 0 {
+			for _, e := range []string{"[]", "[ ]", "{}", "null", "[null]", "{\"A\":null}", "\"\"", "0"} {
+				jUnmarshal(t, rndn(6), [][]byte{valid[0], []byte(e)})
+				if rndn(4) == 0 {
+					jUnmarshal(t, rndn(6), [][]byte{pick(valid), []byte(e), pick(valid)})
+				}
+			}
 		}
 		// histories: 2-4 documents into the same variable
 		for k := 0; k < 3; k++ {
